@@ -398,6 +398,8 @@ pub enum Op {
     Cancel { slot: usize },
     /// Cancel through a clone of the key, leaving the original in the slot.
     CancelClone { slot: usize },
+    /// Drop the auto key stored in the shared slot (cancels the action).
+    DropAuto { slot: usize },
     ReadTime,
     Panic(PanicKind),
     /// Block the thread for the given number of milliseconds.
@@ -742,6 +744,12 @@ impl Node {
                 Op::CancelClone { slot } => {
                     if let Some((key, id)) = w.clone_key(slot) {
                         key.cancel();
+                        w.log(Ev::Cancel { by: Some(node), id });
+                    }
+                }
+                Op::DropAuto { slot } => {
+                    if let Some((key, id)) = w.take_auto_key(slot) {
+                        drop(key);
                         w.log(Ev::Cancel { by: Some(node), id });
                     }
                 }
@@ -1382,6 +1390,8 @@ pub enum Cmd {
     IntoAuto { slot: usize },
     /// Drop the auto key of `slot`.
     DropAuto { slot: usize },
+    /// Keep a clone of the key of `slot` alive in slot `to`.
+    KeepClone { slot: usize, to: usize },
     DropSim,
 }
 
@@ -1452,6 +1462,13 @@ fn exec_cmd_inner(b: &mut Built, cmd: &Cmd) -> Res {
                     w.log(Ev::Cancel { by: None, id: old_id });
                 }
                 w.store_auto_key(*slot, k.into_auto(), id);
+                return Res::Ok;
+            }
+            return Res::Skipped;
+        }
+        Cmd::KeepClone { slot, to } => {
+            if let Some((k, id)) = w.clone_key(*slot) {
+                w.store_key(*to, k, id);
                 return Res::Ok;
             }
             return Res::Skipped;
